@@ -3011,6 +3011,13 @@ func (vc *ValCount) smaller(other ValCount) ValCount {
 	if vc.Count == 0 || (other.Val < vc.Val && other.Count > 0) {
 		return other
 	}
+	if other.Val == vc.Val && other.Count > 0 {
+		// the same extreme value held on both sides: the counts add up
+		return ValCount{
+			Val:   vc.Val,
+			Count: vc.Count + other.Count,
+		}
+	}
 	return ValCount{
 		Val:   vc.Val,
 		Count: vc.Count,
@@ -3021,6 +3028,13 @@ func (vc *ValCount) smaller(other ValCount) ValCount {
 func (vc *ValCount) larger(other ValCount) ValCount {
 	if vc.Count == 0 || (other.Val > vc.Val && other.Count > 0) {
 		return other
+	}
+	if other.Val == vc.Val && other.Count > 0 {
+		// the same extreme value held on both sides: the counts add up
+		return ValCount{
+			Val:   vc.Val,
+			Count: vc.Count + other.Count,
+		}
 	}
 	return ValCount{
 		Val:   vc.Val,
